@@ -20,6 +20,10 @@ ENGINE = "mc.bfs"
 TECHNIQUE = "explicit-state BFS over the real Team (in-memory workers) + exhaustive schedule enumeration of the real thread-backed pool under a controlled scheduler"
 
 
+class TaskAbort(BaseException):
+    pass
+
+
 class HWorker:
     """Harness-owned IWorker: queues work; the explorer decides when one item is performed."""
 
@@ -104,7 +108,8 @@ def apply(st, ev):
             if rec["runs"] > 1:
                 st.bad.append(("task-ran-twice", "task ran %d times" % rec["runs"]))
             if rec["kind"] == "raise":
-                raise RuntimeError("task failure")
+                # alternate between an ordinary exception and one deriving from BaseException only
+                raise (RuntimeError if len(st.tasks) % 2 else TaskAbort)("task failure")
         st.cur_label = ("do", len(st.tasks) - 1)
         r = _guard(st, "do", lambda: st.team.do(task))
         rec["accepted"] = r is None
